@@ -461,6 +461,13 @@ pub fn run_out_hub(pid: &str, n: u32, decreasing: bool, rec: &mut Rec) -> CheckR
             t.push_str(&format!("1 {}\n", j));
         }
     }
+    // a few attacks from higher to lower ids among the (defeated) small arguments: both directions occur in
+    // one framework of more than 2^16 / 2^20 ids; the extensions stay {hub}
+    for (a, b) in [(6usize, 2usize), (7, 3), (8, 4), (70_000, 5)] {
+        if a <= n && b <= n {
+            t.push_str(&format!("{} {}\n", a, b));
+        }
+    }
     let af: AAFramework<usize> = Iccma23Reader::default()
         .read(&mut t.as_bytes())
         .map_err(|e| Failure::new(format!("{}/out-hub/reader-rejected-generated-file", pid), e.to_string()))?;
@@ -475,10 +482,11 @@ pub fn run_out_hub(pid: &str, n: u32, decreasing: bool, rec: &mut Rec) -> CheckR
                 let a = SemiStableSemanticsSolver::new(&af).compute_one_extension().map(|e| e.iter().map(|x| *x.label()).collect::<Vec<usize>>());
                 let b = StableSemanticsSolver::new(&af).compute_one_extension().map(|e| e.iter().map(|x| *x.label()).collect::<Vec<usize>>());
                 let c = PreferredSemanticsSolver::new(&af).compute_one_extension().map(|e| e.iter().map(|x| *x.label()).collect::<Vec<usize>>());
-                (a, b, c)
+                let d = StageSemanticsSolver::new(&af).compute_one_extension().map(|e| e.iter().map(|x| *x.label()).collect::<Vec<usize>>());
+                (a, b, c, d)
             })
             .map_err(|p| Failure::new("C01/out-hub/panic", format!("{}; {}", p, ctx)))?;
-            for (name, e) in [("SE-SST", r.0), ("SE-ST", r.1), ("SE-PR", r.2)] {
+            for (name, e) in [("SE-SST", r.0), ("SE-ST", r.1), ("SE-PR", r.2), ("SE-STG", r.3)] {
                 if e != Some(vec![1]) {
                     return Err(Failure::new(format!("C01/out-hub/{}/not-the-extension", name), format!("returned {:?} members, expected [1]; {}", e.map(|v| v.len()), ctx)));
                 }
@@ -486,27 +494,29 @@ pub fn run_out_hub(pid: &str, n: u32, decreasing: bool, rec: &mut Rec) -> CheckR
         }
         _ => {
             let cred = pid == "C02";
-            for (i, a) in std::iter::once(1usize).chain(leaves).enumerate() {
+            for (i, a) in std::iter::once(1usize).chain([6usize, 70_000, n]).enumerate() {
                 let expected = i == 0;
-                rec.evals(3);
+                rec.evals(4);
                 let got = guard(|| {
                     if cred {
                         (
                             CompleteSemanticsSolver::new(&af).is_credulously_accepted(&a),
                             StableSemanticsSolver::new(&af).is_credulously_accepted(&a),
                             SemiStableSemanticsSolver::new(&af).is_credulously_accepted(&a),
+                            StageSemanticsSolver::new(&af).is_credulously_accepted(&a),
                         )
                     } else {
                         (
                             PreferredSemanticsSolver::new(&af).is_skeptically_accepted(&a),
                             StableSemanticsSolver::new(&af).is_skeptically_accepted(&a),
                             SemiStableSemanticsSolver::new(&af).is_skeptically_accepted(&a),
+                            StageSemanticsSolver::new(&af).is_skeptically_accepted(&a),
                         )
                     }
                 })
                 .map_err(|p| Failure::new(format!("{}/out-hub/panic", pid), format!("{}; {}", p, ctx)))?;
-                let names = if cred { ["DC-CO", "DC-ST", "DC-SST"] } else { ["DS-PR", "DS-ST", "DS-SST"] };
-                for (name, g) in names.iter().zip([got.0, got.1, got.2]) {
+                let names = if cred { ["DC-CO", "DC-ST", "DC-SST", "DC-STG"] } else { ["DS-PR", "DS-ST", "DS-SST", "DS-STG"] };
+                for (name, g) in names.iter().zip([got.0, got.1, got.2, got.3]) {
                     if g != expected {
                         return Err(Failure::new(format!("{}/out-hub/{}/got-{}-expected-{}", pid, name, g, expected), format!("argument {}; {}", a, ctx)));
                     }
